@@ -1,0 +1,49 @@
+//  SPDX-License-Identifier: BSL-1.0
+//  Distributed under the Boost Software License, Version 1.0. (See accompanying
+//  file LICENSE_1_0.txt or copy at http://www.boost.org/LICENSE_1_0.txt)
+
+// Verification hooks. With PIKA_VERIF_HOOKS undefined (the default) every macro
+// below expands to ((void) 0) and nothing else in this header is compiled.
+
+#pragma once
+
+#if defined(PIKA_VERIF_HOOKS)
+
+# include <atomic>
+# include <cstdint>
+
+namespace pika::verif {
+    // phase: 0 = point (preemption/perturbation point), 1 = pre (about to perform
+    // an instrumented atomic operation), 2 = post (operation performed; a, b carry
+    // observed values)
+    using sink_t = void (*)(int phase, char const* site, void const* obj, std::uint64_t a,
+        std::uint64_t b) noexcept;
+
+    // one instance process-wide (default visibility so that libpika and the
+    // harness executable share it)
+    __attribute__((visibility("default"))) inline std::atomic<sink_t> sink{nullptr};
+
+    inline void emit(int phase, char const* site, void const* obj, std::uint64_t a = 0,
+        std::uint64_t b = 0) noexcept
+    {
+        sink_t s = sink.load(std::memory_order_acquire);
+        if (s != nullptr) s(phase, site, obj, a, b);
+    }
+}    // namespace pika::verif
+
+# define PIKA_VERIF_POINT(site, obj, a, b)                                                         \
+  ::pika::verif::emit(0, site, static_cast<void const*>(obj), static_cast<std::uint64_t>(a),      \
+      static_cast<std::uint64_t>(b))
+# define PIKA_VERIF_PRE(site, obj)                                                                 \
+  ::pika::verif::emit(1, site, static_cast<void const*>(obj), 0, 0)
+# define PIKA_VERIF_POST(site, obj, a, b)                                                          \
+  ::pika::verif::emit(2, site, static_cast<void const*>(obj), static_cast<std::uint64_t>(a),      \
+      static_cast<std::uint64_t>(b))
+
+#else
+
+# define PIKA_VERIF_POINT(site, obj, a, b) ((void) 0)
+# define PIKA_VERIF_PRE(site, obj) ((void) 0)
+# define PIKA_VERIF_POST(site, obj, a, b) ((void) 0)
+
+#endif
